@@ -31,4 +31,4 @@ def run(ctx):
         fam.mc_holds(ctx, "MC full layer, two readers", readers=2, numsegs=2, ranges="R_any2", faulty=1, fmodes=("flaky",),
                      badsegs=1, maxout=2)
     # ---- implementation level
-    fam.run_traces(ctx, "C46", "c46", 160 if ctx.quick else 3000)
+    fam.run_traces(ctx, "C46", "c46", 300 if ctx.quick else 3000)
